@@ -277,6 +277,12 @@ func verifC17ManyDistinct(n int) []verifC17Step {
 		st = append(st, verifC17Step{kind: 0, chain: 255, txb: []byte{0x77, byte(i >> 8), byte(i)}}, verifC17Step{kind: 2, qi: 2})
 	}
 	st = append(st, verifC17Step{kind: 1, secs: 60}, verifC17Step{kind: 0, chain: 2, tx: 0}, verifC17Step{kind: 1, secs: 1200}, verifC17Step{kind: 0, chain: 2, tx: 0})
+	// ... and once every window has lapsed (all forwards are 20 minutes old, three purge ticks have passed) each of them is forwarded
+	// again when asked for: however many transactions are remembered, none stays suppressed
+	for j := 0; j < 48; j++ {
+		i := (j*n/48 + j%7) % n
+		st = append(st, verifC17Step{kind: 0, chain: 255, txb: []byte{0x77, byte(i >> 8), byte(i)}}, verifC17Step{kind: 2, qi: 2})
+	}
 	return st
 }
 
